@@ -47,13 +47,14 @@ let () =
     | l :: rest ->
       (match words l with
        | "case" :: id :: hdr ->
+         let ext = List.mem "ext" hdr in
          let rec take acc ls = match ls with
            | [] -> (List.rev acc, [])
-           | l :: r -> if l = "end" then (List.rev acc, ls) else
+           | l :: r -> if l = "end" then (List.rev acc, ls) else if ext then take acc r else
                (match parse_op l with Some o -> take (o :: acc) r | None -> (List.rev acc, ls)) in
          let (nops, rest) = take [] rest in
          Printf.printf "case %s\n" id;
-         if not (List.mem "ext" hdr) then begin
+         if not ext then begin
            let names = List.map fst nops and ops = List.map snd nops in
            (* the model stops being meaningful after the destruction of the context *)
            List.iter2 (fun n o -> Printf.printf "m %s\n" (obs_str n o)) names (run ops);
